@@ -187,7 +187,32 @@ fn swap_alphabet(m: &VModel, w: &mut VWorld, s: &VSt, with_blk: bool) -> Vec<VAc
 }
 
 fn alpha_c01(m: &VModel, w: &mut VWorld, s: &VSt) -> Vec<VAct> {
-    swap_alphabet(m, w, s, true)
+    let base = swap_alphabet(m, w, s, true);
+    // every swap also with a slippage limit exactly at, one unit inside and one unit past the quoted amount: whether
+    // such a swap is accepted is C17's business, but an accepted one must still conserve the curve
+    let mut acts = vec![];
+    for a in base {
+        let quoted: Result<Uint128, String> = match &a {
+            VAct::SwapIn { add, quote, .. } => w.vq(&VammQuery::InputAmount { direction: dir(*add), amount: Uint128::new(*quote) }),
+            VAct::SwapOut { add, base, .. } => w.vq(&VammQuery::OutputAmount { direction: dir(*add), amount: Uint128::new(*base) }),
+            _ => Err(String::new()),
+        };
+        acts.push(a.clone());
+        if let Ok(qv) = quoted {
+            let qv = qv.u128();
+            for l in [qv.saturating_sub(1), qv, qv + 1] {
+                if l == 0 {
+                    continue;
+                }
+                acts.push(match a.clone() {
+                    VAct::SwapIn { add, quote, over, .. } => VAct::SwapIn { add, quote, limit: l, over },
+                    VAct::SwapOut { add, base, .. } => VAct::SwapOut { add, base, limit: l },
+                    x => x,
+                });
+            }
+        }
+    }
+    acts
 }
 
 /// monitor: {b0, seen: {tps -> max quote reserve seen at that size}, last_*: previous accepted swap}
@@ -564,6 +589,10 @@ fn alpha_c18_feed(m: &VModel, w: &mut VWorld, s: &VSt) -> Vec<VAct> {
     }
     if now >= last + 20 {
         acts.push(VAct::AppendMulti { prices: vec![m.amounts[0], m.amounts[1]], backs: vec![15, 5] });
+        acts.push(VAct::AppendMulti { prices: vec![m.amounts[1], m.amounts[0], m.amounts[1]], backs: vec![12, 12, 0] });
+    }
+    if now >= last {
+        acts.push(VAct::AppendMulti { prices: vec![m.amounts[1]], backs: vec![0] });
     }
     for sx in &m.secs {
         acts.push(VAct::Blk { secs: *sx });
@@ -633,9 +662,12 @@ fn step_c18_feed(m: &VModel, w: &mut VWorld, s: &VSt, a: &VAct, out: &mut StepOu
                     );
                 }
             }
-            Err(_) => {
+            Err(e) => {
                 if n < subs.len() {
-                    out.tag("c18:feed-previous-refused-within-history");
+                    out.viol(
+                        "C18:feed-previous-price-refused-within-history",
+                        format!("GetPreviousPrice({}) refused ({}) although {} submissions exist: {:?}", n, e, subs.len(), subs),
+                    );
                 }
             }
         }
